@@ -145,4 +145,308 @@ theorem has_razor_appended (st : String) : has (st ++ " razor") "razor" = true :
   have : " razor".toList = ' ' :: "razor".toList := by decide
   simp [String.toList_append, this]
 
+/-! ### The refusals of `parseAll` / `runCli` / `runLoop` (audit finding A1) -/
+
+/-- all five keys of the TOML file are present ("well-typed configuration") -/
+def wellTyped (t : MethodToml) : Bool :=
+  t.pickedStrategy.isSome && t.scoreType.isSome && t.sharedPeptides.isSome && t.grouping.isSome &&
+    t.label.isSome
+
+/-- a `--methods` value is well-typed: a name, or a custom file with all five keys -/
+def MethodRef.wellTyped : MethodRef → Bool
+  | .builtin _ => true
+  | .custom t => C18.wellTyped t
+
+/-- the errors `parseMethod` can return at all, and the field each one blames -/
+theorem parseMethod_error_cases (g : Bool) (t : MethodToml) (e : Err) (h : parseMethod g t = .error e) :
+    (e = .missingKey "pickedStrategy" ∧ t.pickedStrategy = none) ∨
+    (e = .missingKey "scoreType" ∧ t.scoreType = none) ∨
+    (e = .missingKey "sharedPeptides" ∧ t.sharedPeptides = none) ∨
+    (e = .missingKey "grouping" ∧ t.grouping = none ∧ g = false) ∨
+    (e = .missingKey "label" ∧ t.label = none) ∨
+    e = .unknownPicked ∨ e = .unknownScore ∨ e = .unknownGrouping := by
+  unfold parseMethod at h
+  split at h
+  · injection h with h; subst h; simp_all
+  · split at h
+    · injection h with h; subst h; simp
+    · split at h
+      · injection h with h; subst h; simp_all
+      · split at h
+        · injection h with h; subst h; simp_all
+        · split at h
+          · injection h with h; subst h; simp
+          · split at h
+            · injection h with h; subst h
+              rename_i hg
+              cases g <;> simp_all
+            · split at h
+              · injection h with h; subst h; simp
+              · split at h
+                · injection h with h; subst h; simp_all
+                · cases h
+
+theorem parseMethod_error_wellTyped (g : Bool) (t : MethodToml) (e : Err) (hw : wellTyped t = true)
+    (h : parseMethod g t = .error e) : e = .unknownPicked ∨ e = .unknownScore ∨ e = .unknownGrouping := by
+  simp only [wellTyped, Bool.and_eq_true] at hw
+  obtain ⟨⟨⟨⟨h1, h2⟩, h3⟩, h4⟩, h5⟩ := hw
+  rcases parseMethod_error_cases g t e h with ⟨-, h'⟩ | ⟨-, h'⟩ | ⟨-, h'⟩ | ⟨-, h', -⟩ | ⟨-, h'⟩ | h'
+  · rw [h'] at h1; cases h1
+  · rw [h'] at h2; cases h2
+  · rw [h'] at h3; cases h3
+  · rw [h'] at h4; cases h4
+  · rw [h'] at h5; cases h5
+  · exact h'
+
+/-- exact characterisation of the three parse refusals on a configuration with all five keys -/
+theorem parseMethod_refusals (g : Bool) (t : MethodToml) (pk st sh gr lb : String)
+    (hpk : t.pickedStrategy = some pk) (hst : t.scoreType = some st) (hsh : t.sharedPeptides = some sh)
+    (hgr : t.grouping = some gr) (hlb : t.label = some lb) :
+    (parseMethod g t = .error .unknownPicked ↔ parsePicked pk = none) ∧
+    (parseMethod g t = .error .unknownScore ↔
+      parsePicked pk ≠ none ∧ parseScore (scoreDescription st sh) = none) ∧
+    (parseMethod g t = .error .unknownGrouping ↔
+      parsePicked pk ≠ none ∧ parseScore (scoreDescription st sh) ≠ none ∧
+        parseGrouping (if g then "pseudo_gene" else gr) = none) ∧
+    ((∃ c, parseMethod g t = .ok c) ↔
+      parsePicked pk ≠ none ∧ parseScore (scoreDescription st sh) ≠ none ∧
+        parseGrouping (if g then "pseudo_gene" else gr) ≠ none) := by
+  unfold parseMethod
+  simp only [hpk, hst, hsh, hgr, hlb]
+  have hgn : (if g = true then some "pseudo_gene" else some gr) = some (if g then "pseudo_gene" else gr) := by
+    cases g <;> rfl
+  simp only [hgn]
+  cases h1 : parsePicked pk <;> cases h2 : parseScore (scoreDescription st sh) <;>
+    cases h3 : parseGrouping (if g then "pseudo_gene" else gr) <;> simp
+
+theorem findMethod_error_iff (tbl : List MethodToml) (n : String) (e : Err) :
+    findMethod tbl n = .error e ↔ e = .unknownMethod ∧ n ∉ tbl.map (·.name) := by
+  unfold findMethod
+  cases hf : tbl.find? (fun m => m.name == n) with
+  | some m =>
+    have hm := List.find?_some hf
+    have hmem := List.mem_of_find?_eq_some hf
+    simp only [beq_iff_eq] at hm
+    simp only [reduceCtorEq, false_iff, not_and, Classical.not_not]
+    intro _
+    exact List.mem_map.mpr ⟨m, hmem, hm⟩
+  | none =>
+    rw [List.find?_eq_none] at hf
+    simp only [Except.error.injEq]
+    constructor
+    · intro h
+      refine ⟨h.symm, ?_⟩
+      intro hmem
+      obtain ⟨m, hm, hn⟩ := List.mem_map.mp hmem
+      exact hf m hm (by simpa using hn)
+    · intro h; exact h.1.symm
+
+theorem findMethod_ok_mem (tbl : List MethodToml) (n : String) (m : MethodToml) (h : findMethod tbl n = .ok m) :
+    m ∈ tbl ∧ m.name = n := by
+  unfold findMethod at h
+  cases hf : tbl.find? (fun m => m.name == n) with
+  | some m' =>
+    rw [hf] at h
+    injection h with h
+    subst h
+    exact ⟨List.mem_of_find?_eq_some hf, by simpa using List.find?_some hf⟩
+  | none => rw [hf] at h; cases h
+
+/-- a `--methods` value resolves and parses -/
+def Parses (tbl : List MethodToml) (g : Bool) (m : MethodRef) (c : Cfg) : Prop :=
+  ∃ t, resolve tbl m = .ok t ∧ parseMethod g t = .ok c
+
+/-- a `--methods` value is refused with `e` while being located or parsed -/
+def RefusedAt (tbl : List MethodToml) (g : Bool) (m : MethodRef) (e : Err) : Prop :=
+  resolve tbl m = .error e ∨ ∃ t, resolve tbl m = .ok t ∧ parseMethod g t = .error e
+
+theorem parseAll_ok_iff (tbl : List MethodToml) (g : Bool) (ms : List MethodRef) (cfgs : List Cfg) :
+    parseAll tbl g ms = .ok cfgs ↔
+      ms.length = cfgs.length ∧ ∀ p ∈ ms.zip cfgs, Parses tbl g p.1 p.2 := by
+  induction ms generalizing cfgs with
+  | nil =>
+    simp only [parseAll, Except.ok.injEq, List.length_nil, List.zip_nil_left, List.not_mem_nil, false_imp_iff,
+      implies_true, and_true]
+    constructor
+    · intro h; subst h; rfl
+    · intro h; exact (List.length_eq_zero_iff.mp h.symm).symm
+  | cons m r ih =>
+    simp only [parseAll]
+    constructor
+    · intro h
+      cases hr : resolve tbl m with
+      | error e => rw [hr] at h; cases h
+      | ok t =>
+        rw [hr] at h
+        simp only at h
+        cases hp : parseMethod g t with
+        | error e => rw [hp] at h; cases h
+        | ok c =>
+          rw [hp] at h
+          simp only at h
+          cases hpa : parseAll tbl g r with
+          | error e => rw [hpa] at h; cases h
+          | ok cs =>
+            rw [hpa] at h
+            injection h with h
+            subst h
+            obtain ⟨hl, hz⟩ := (ih cs).mp hpa
+            refine ⟨by simp [hl], ?_⟩
+            intro p hp'
+            simp only [List.zip_cons_cons, List.mem_cons] at hp'
+            rcases hp' with rfl | hp'
+            · exact ⟨t, hr, hp⟩
+            · exact hz p hp'
+    · rintro ⟨hl, hz⟩
+      cases cfgs with
+      | nil => simp at hl
+      | cons c cs =>
+        obtain ⟨t, hr, hp⟩ := hz (m, c) (by simp)
+        rw [hr]
+        have := (ih cs).mpr ⟨by simpa using hl, fun p hp' => hz p (by simp [hp'])⟩
+        simp only [hp, this]
+
+theorem parseAll_error_iff (tbl : List MethodToml) (g : Bool) (ms : List MethodRef) (e : Err) :
+    parseAll tbl g ms = .error e ↔
+      ∃ pre m post, ms = pre ++ m :: post ∧ (∀ x ∈ pre, ∃ c, Parses tbl g x c) ∧ RefusedAt tbl g m e := by
+  induction ms with
+  | nil =>
+    simp only [parseAll, reduceCtorEq, false_iff]
+    rintro ⟨pre, m, post, h, -⟩
+    simp at h
+  | cons m r ih =>
+    simp only [parseAll]
+    constructor
+    · intro h
+      cases hr : resolve tbl m with
+      | error e' =>
+        rw [hr] at h
+        injection h with h
+        subst h
+        exact ⟨[], m, r, rfl, by simp, Or.inl hr⟩
+      | ok t =>
+        rw [hr] at h
+        simp only at h
+        cases hp : parseMethod g t with
+        | error e' =>
+          rw [hp] at h
+          injection h with h
+          subst h
+          exact ⟨[], m, r, rfl, by simp, Or.inr ⟨t, hr, hp⟩⟩
+        | ok c =>
+          rw [hp] at h
+          simp only at h
+          cases hpa : parseAll tbl g r with
+          | ok cs => rw [hpa] at h; cases h
+          | error e' =>
+            rw [hpa] at h
+            injection h with h
+            subst h
+            obtain ⟨pre, m', post, hms, hpre, hm'⟩ := ih.mp hpa
+            refine ⟨m :: pre, m', post, by simp [hms], ?_, hm'⟩
+            intro x hx
+            rcases List.mem_cons.mp hx with hx | hx
+            · subst hx; exact ⟨c, t, hr, hp⟩
+            · exact hpre x hx
+    · rintro ⟨pre, m', post, hms, hpre, hm'⟩
+      cases pre with
+      | nil =>
+        simp only [List.nil_append, List.cons.injEq] at hms
+        obtain ⟨rfl, rfl⟩ := hms
+        rcases hm' with hr | ⟨t, hr, hp⟩
+        · rw [hr]
+        · rw [hr]; simp only [hp]
+      | cons x pre' =>
+        simp only [List.cons_append, List.cons.injEq] at hms
+        obtain ⟨rfl, hr'⟩ := hms
+        obtain ⟨c, t, hr, hp⟩ := hpre m List.mem_cons_self
+        rw [hr]
+        simp only [hp]
+        have := ih.mpr ⟨pre', m', post, hr', fun y hy => hpre y (List.mem_cons_of_mem _ hy), hm'⟩
+        rw [this]
+
+theorem RefusedAt_cases (tbl : List MethodToml) (g : Bool) (m : MethodRef) (e : Err) (h : RefusedAt tbl g m e) :
+    (e = .unknownMethod ∧ ∃ n, m = .builtin n ∧ n ∉ tbl.map (·.name)) ∨
+    ∃ t, resolve tbl m = .ok t ∧ parseMethod g t = .error e := by
+  rcases h with h | h
+  · left
+    cases m with
+    | builtin n =>
+      obtain ⟨h1, h2⟩ := (findMethod_error_iff tbl n e).mp h
+      exact ⟨h1, n, rfl, h2⟩
+    | custom t => cases h
+  · exact Or.inr h
+
+theorem parseMethod_ne_unknownMethod (g : Bool) (t : MethodToml) : parseMethod g t ≠ .error .unknownMethod := by
+  intro h
+  have := parseMethod_error_cases g t _ h
+  simp at this
+
+/-- what `runLoop` returns: every method up to the first refusal has a `table`/`skipped` entry, the
+    refusal ends the list -/
+theorem runLoop_spec (s : Supplied) (cfgs : List Cfg) :
+    ((∀ x ∈ cfgs, runMethod s x = .ok () ∨ runMethod s x = .error .missingInput) ∧
+      runLoop s cfgs =
+        cfgs.map (fun x => match runMethod s x with | .ok () => Outcome.table | .error _ => Outcome.skipped)) ∨
+    (∃ pre c post e, cfgs = pre ++ c :: post ∧
+      (∀ x ∈ pre, runMethod s x = .ok () ∨ runMethod s x = .error .missingInput) ∧
+      runMethod s c = .error e ∧ e ≠ .missingInput ∧
+      runLoop s cfgs =
+        pre.map (fun x => match runMethod s x with | .ok () => Outcome.table | .error _ => Outcome.skipped)
+          ++ [.abort e]) := by
+  induction cfgs with
+  | nil => left; exact ⟨by simp, rfl⟩
+  | cons c r ih =>
+    cases hc : runMethod s c with
+    | ok u =>
+      rcases ih with ⟨h1, h2⟩ | ⟨pre, c', post, e, h1, h2, h3, h4, h5⟩
+      · left
+        refine ⟨?_, ?_⟩
+        · intro x hx
+          rcases List.mem_cons.mp hx with hx | hx
+          · subst hx; exact Or.inl hc
+          · exact h1 x hx
+        · simp only [runLoop, hc, h2, List.map_cons]
+      · right
+        refine ⟨c :: pre, c', post, e, by simp [h1], ?_, h3, h4, ?_⟩
+        · intro x hx
+          rcases List.mem_cons.mp hx with hx | hx
+          · subst hx; exact Or.inl hc
+          · exact h2 x hx
+        · simp only [runLoop, hc, h5, List.map_cons, List.cons_append]
+    | error e =>
+      by_cases he : e = .missingInput
+      · subst he
+        rcases ih with ⟨h1, h2⟩ | ⟨pre, c', post, e, h1, h2, h3, h4, h5⟩
+        · left
+          refine ⟨?_, ?_⟩
+          · intro x hx
+            rcases List.mem_cons.mp hx with hx | hx
+            · subst hx; exact Or.inr hc
+            · exact h1 x hx
+          · simp only [runLoop, hc, h2, List.map_cons]
+        · right
+          refine ⟨c :: pre, c', post, e, by simp [h1], ?_, h3, h4, ?_⟩
+          · intro x hx
+            rcases List.mem_cons.mp hx with hx | hx
+            · subst hx; exact Or.inr hc
+            · exact h2 x hx
+          · simp only [runLoop, hc, h5, List.map_cons, List.cons_append]
+      · right
+        refine ⟨[], c, r, e, rfl, by simp, hc, he, ?_⟩
+        cases e <;> first | exact absurd rfl he | simp [runLoop, hc]
+
+
+theorem runLoop_map_irrelevant (s : Supplied) (b : Bool) (cfgs : List Cfg) :
+    runLoop { s with map := b } cfgs = runLoop s cfgs := by
+  induction cfgs with
+  | nil => rfl
+  | cons c r ih =>
+    have : runMethod { s with map := b } c = runMethod s c := by
+      unfold runMethod
+      have : ({ s with map := b } : Supplied).has c.input = s.has c.input := by
+        cases c.input <;> rfl
+      rw [this]
+    simp only [runLoop, this, ih]
+
 end PgFdr.C18
